@@ -318,11 +318,30 @@ def replay_histories(ctx, exe, recs, sdir, tag, checked=False):
 # ------------------------------------------------------------------------------------------
 
 def _num(v):
+    if v["e"] == 99:    # non-finite value ids of Tables.tla
+        return {1: "inf", -1: "-inf", 0: "nan"}[v["m"]]
     return "%de-%d" % (v["m"], v["e"])
 
 
 def _numval(v):
     return float(_num(v))
+
+
+def _obsnum(x):
+    """driver prints non-finite numbers as strings"""
+    return float(x) if isinstance(x, str) else x
+
+
+def _tsame(obs, exp):
+    import math
+    o = _obsnum(obs)
+    if o is None:
+        return False
+    if math.isnan(exp):
+        return math.isnan(o)
+    if math.isinf(exp) or math.isinf(o) or math.isnan(o):
+        return o == exp
+    return same(o, exp, 1e-12)
 
 
 def replay_tables(ctx, exe, recs, sdir):
@@ -377,7 +396,7 @@ def replay_tables(ctx, exe, recs, sdir):
                 continue
             for col in ("x", "y"):
                 for j in range(exp["n"]):
-                    if not same(rd[col][j], _numval(exp[col][j]), 1e-12):
+                    if not _tsame(rd[col][j], _numval(exp[col][j])):
                         ctx.violation(name + ":" + col, "%s[%d] = %r expected %r" % (col, j, rd[col][j], _numval(exp[col][j])), r)
             if k == "table":
                 for j in range(exp["n"]):
@@ -390,8 +409,9 @@ def replay_tables(ctx, exe, recs, sdir):
                                       "has_yerr=%s" % (len(rd["yerr"]), rd["hasyerr"]), r)
                     else:
                         for j in range(exp["n"]):
-                            if not same(rd["yerr"][j], _numval(exp["yerr"][j]), 1e-12):
-                                ctx.violation("Table:yerr", "yerr[%d] = %r expected %r" % (j, rd["yerr"][j], _numval(exp["yerr"][j])), r)
+                            if not _tsame(rd["yerr"][j], _numval(exp["yerr"][j])):
+                                ctx.violation("Table:yerr", "row %d (flag %r written): yerr = %r expected %r" % (
+                                    j, r["inp"]["flags"][j], rd["yerr"][j], _numval(exp["yerr"][j])), r)
         elif k == "matrix":
             if (rd["rows"], rd["cols"]) != (exp["rows"], exp["cols"]):
                 ctx.violation(name + ":shape", "read %dx%d, written %dx%d" % (rd["rows"], rd["cols"], exp["rows"], exp["cols"]), r)
@@ -564,6 +584,16 @@ def run(ctx):
         "dlpoly forces only together with velocities, dlpoly box class fixed per file, CONFIG holds one frame, "
         "table flag blank/NUL is not written (nothing demanded)",
         "time stamps are not compared (not in the property statement)"]
+    large = {}
+
+    def _large_tlc():
+        try:
+            m = "MCLargeQuick" if quick else "MCLarge"
+            large["mod"] = m
+            large["res"] = vlib.tlc("trajio", m, cfg=m + ".cfg", timeout=2400, workers=2)
+        except Exception as ex:      # re-raised in the main thread
+            large["exc"] = ex
+
     try:
         if getattr(ctx, "replay", None):
             import json
@@ -578,6 +608,11 @@ def run(ctx):
             else:
                 replay_tables(ctx, exe, [obj], sdir)
             return
+        # the large-frame vectors (100003 beads) take TLC ~15 s per record: computed in the background
+        import threading, time
+        lt = threading.Thread(target=_large_tlc)
+        lt.start()
+        time.sleep(1.0)     # vlib.tlc numbers its scratch directories with an unsynchronised counter
         # ---- 1. histories ---------------------------------------------------------------
         recs = []
         for mod in (["MCTrajQuick"] if quick else ["MCTrajThorough", "MCTrajThorough3"]):
@@ -618,6 +653,18 @@ def run(ctx):
         replay_histories(ctx, exe, sims, sdir, "s")
         replay_histories(ctx, exe_chk, [r for r in sims if _variant(r) in ("next-mismatch", "first-mismatch")],
                          sdir, "t", checked=True)
+
+        # ---- 1b. large frames: fixed-width index columns beyond 99999 ----------------------
+        lt.join()
+        if "exc" in large:
+            raise large["exc"]
+        res = large["res"]
+        vlib.tlc_must_hold(res, "Large frame histories")
+        ctx.add_tlc(large["mod"], res)
+        if not res.records or any(r["n"] < 100000 for r in res.records):
+            raise vlib.InfraError("no large-frame history exported")
+        replay_histories(ctx, exe, res.records, sdir, "L")
+        ctx.extra["large_frames"] = sorted("%s:%s:%d" % (r["fmt"], _variant(r), r["n"]) for r in res.records)
 
         # ---- 2. tables / matrices / index ------------------------------------------------
         mod = "MCTablesQuick" if quick else "MCTablesThorough"
